@@ -48,7 +48,8 @@ def tree_fingerprints(repo):
     for rel, m in sorted(repo.modules.items()):
         out[rel] = vgraph.module_fingerprints(trees[m.name], m.name, m.is_pkg, known, inl)
     helpers = sorted(f"{rel}::{h}" for rel, m in out.items() for h in m["inlined"])      # evaluated inside a caller
-    return {"modules": out, "helpers": helpers, "identifiers": sorted(_identifiers(trees))}
+    transparent = sorted(f"{rel}::{h}" for rel, m in out.items() for h in m["transparent"])   # every use evaluated in place
+    return {"modules": out, "helpers": helpers, "transparent": transparent, "identifiers": sorted(_identifiers(trees))}
 
 
 def compare(repo):
@@ -58,6 +59,7 @@ def compare(repo):
     cur = tree_fingerprints(repo)
     ref_helpers, cur_helpers = set(ref["helpers"]), set(cur["helpers"])
     ref_ids, cur_ids = set(ref["identifiers"]), set(cur["identifiers"])
+    ref_transparent, cur_transparent = set(ref.get("transparent", [])), set(cur.get("transparent", []))
     unproven, n = [], 0
     for rel, r in ref["modules"].items():
         c = cur["modules"].get(rel)
@@ -66,6 +68,12 @@ def compare(repo):
             continue
         if c["residue"] != r["residue"]:
             unproven.append(f"{rel} (module- or class-level statements)")
+        for nm, hv in r.get("consts", {}).items():
+            if c.get("consts", {}).get(nm) != hv:
+                unproven.append(f"{rel}::{nm} (module constant changed or removed)")
+        for nm in c.get("consts", {}):
+            if nm not in r.get("consts", {}) and nm in ref_ids:
+                unproven.append(f"{rel}::{nm} (new module constant under a name the reference tree already uses)")
         for key, fp in r["funcs"].items():
             n += 1
             ident = f"{rel}::{key}"
@@ -77,6 +85,8 @@ def compare(repo):
                     continue
                 unproven.append(f"{ident} (removed)")
             elif c["funcs"][key] != fp:
+                if ident in ref_transparent and ident in cur_transparent:
+                    continue            # reachable only through callers, every one of which evaluates it in place
                 unproven.append(ident)
     for rel, c in cur["modules"].items():
         rfuncs = ref["modules"].get(rel, {"funcs": {}})["funcs"]
